@@ -28,6 +28,7 @@ pub enum BOp {
     FinishAndClear,
     Abandon,
     AbandonWithMessage(String),
+    SetTabWidth(u8),
 }
 
 #[derive(Debug, Clone, Serialize, Deserialize)]
@@ -43,7 +44,7 @@ pub struct BarCase {
 pub fn apply_model(st: &BarState, op: &BOp) -> BarState {
     let mut s = st.clone();
     match op {
-        BOp::Tick | BOp::Println(_) | BOp::Suspend(_) => {}
+        BOp::Tick | BOp::Println(_) | BOp::Suspend(_) | BOp::SetTabWidth(_) => {}
         BOp::Inc(d) => s.pos = s.pos.wrapping_add(*d),
         BOp::SetPos(p) => s.pos = *p,
         BOp::SetMessage(m) => s.msg = m.clone(),
@@ -93,6 +94,7 @@ pub fn exec(pb: &ProgressBar, vt: &VTerm, op: &BOp) {
         BOp::FinishAndClear => pb.finish_and_clear(),
         BOp::Abandon => pb.abandon(),
         BOp::AbandonWithMessage(m) => pb.abandon_with_message(m.clone()),
+        BOp::SetTabWidth(w) => pb.set_tab_width(*w as usize),
     }
 }
 
@@ -246,6 +248,7 @@ pub fn bop_strategy(cols: usize) -> BoxedStrategy<BOp> {
         2 => Just(BOp::FinishAndClear),
         1 => Just(BOp::Abandon),
         1 => multi_text(cols).prop_map(BOp::AbandonWithMessage),
+        1 => (0u8..12).prop_map(BOp::SetTabWidth),
     ]
     .boxed()
 }
